@@ -26,7 +26,10 @@ explorers' by `propose` / `accept` / `revert`), and for every order in which Go'
 * `detail_cells_are_model_values`, `detail_value_eq_sum_cells`, `detail_tn_cells`, `detail_rows_are_model_rows`
                                        the detail file (`…-NameMappedVariables.csv`): every row's planning-unit cells are the
                                        model's per-unit values in the solution's unit order, `Value` = sum of the cells, the TN
-                                       row is the PN row plus the DN row cell by cell.
+                                       row is the PN row plus the DN row cell by cell;
+* `action_cell_is_action_state`, `action_matrix_determines_flags`, `action_cell_sound`
+                                       the management-actions file: the cell of an action's unit and type is that action's
+                                       state, the file determines the action set, no cell is 1 without an active action.
 
 Exact in ℚ (DESIGN 3.1); the tie to the Go code is the `enc` operation of the `catchment-walk` protocol (the real
 `MakeEncodeable` / `SolutionBuilder` on the walked model against `solutionVariables`, line by line) and the direct
@@ -212,6 +215,44 @@ example :
     let s := runRaw exData [.propose 0, .accept, .propose 1, .revert, .revert]
     detailRows (planningUnits exData) (planningUnits exData).reverse s =
       varsByName.map fun v => (v, total s v, (planningUnits exData).reverse.map (unitVal s v)) := by decide +kernel
+
+/-! ## The management-actions file (`…-ManagementActions.csv`): the action set, losslessly -/
+
+/-- the cell of an action's own planning unit and type is that action's state: 1 iff the action is active -/
+theorem action_cell_is_action_state {acts : List Action} (hK : KeysDistinct acts) (flags : List Bool)
+    (hl : flags.length = acts.length) (i : Nat) (hi : i < acts.length) :
+    activeIn acts flags acts[i].pu acts[i].typ = flags[i]'(hl ▸ hi) :=
+  activeIn_own hK hl i hi
+
+/-- **the management-actions file determines the action set**: two solutions of one scenario whose files have the same
+cells have the same action states (hence the same encoding), provided no two actions share (unit, type) and every action's
+unit is among the solution's planning units.  Together with C09's `decode_encode` this is what makes the three written
+views of a solution — the `Actions` text of its summary row, the management-actions file, the model state — interchangeable. -/
+theorem action_matrix_determines_flags {acts : List Action} (hK : KeysDistinct acts) (pus : List PU)
+    (hpus : ∀ a ∈ acts, a.pu ∈ pus) (f₁ f₂ : List Bool) (h₁ : f₁.length = acts.length) (h₂ : f₂.length = acts.length)
+    (h : actionMatrix acts f₁ pus = actionMatrix acts f₂ pus) : f₁ = f₂ := by
+  apply List.ext_getElem (h₁.trans h₂.symm)
+  intro i hi₁ hi₂
+  have hi : i < acts.length := h₁ ▸ hi₁
+  have hrow := (List.map_inj_left.mp h) acts[i].pu (hpus _ (List.getElem_mem hi))
+  have hcells := (List.map_inj_left.mp (Prod.mk.inj hrow).2) acts[i].typ (mem_typesPresent (List.getElem_mem hi))
+  rw [activeIn_own hK h₁ i hi, activeIn_own hK h₂ i hi] at hcells
+  exact hcells
+
+/-- a cell is 1 only where an active action of that unit and type exists (nothing is invented) -/
+theorem action_cell_sound {acts : List Action} {flags : List Bool} {p : PU} {t : ActType}
+    (h : activeIn acts flags p t = true) : ∃ ab ∈ acts.zip flags, ab.2 = true ∧ ab.1.pu = p ∧ ab.1.typ = t := by
+  unfold activeIn at h
+  rw [List.any_eq_true] at h
+  obtain ⟨ab, hm, hc⟩ := h
+  simp only [Bool.and_eq_true, decide_eq_true_eq] at hc
+  exact ⟨ab, hm, hc.1.1, hc.1.2, hc.2⟩
+
+example : KeysDistinct exData.acts := by decide +kernel
+/-- the hypothesis is needed: with two actions of the same unit and type the file cannot tell which one is active -/
+example :
+    let a : Action := { pu := 1, typ := .gully, k := default }
+    actionMatrix [a, a] [true, false] [1] = actionMatrix [a, a] [false, true] [1] := by decide +kernel
 
 /-! Non-vacuity / sanity (tests, labelled as such) on the C01 dataset: a state after a misuse history, the map
 yielding the units backwards; a unit whose share is zero is dropped from the list and still read as 0. -/
